@@ -26,6 +26,11 @@ func c17(p *core.Prog, r *core.Report) {
 	c17Loop(p, r)
 	c17State(p, r)
 	r.Rule("C17-R5", "E6 provenance", 5, "the caller's retry options reach the attempt loop unchanged")
+	// the policy table is applied to the code the error carries: a context's
+	// raw error (a net.Error: "network", retried by default) must have been
+	// converted to timeout / cancelled before it can reach CanRetry (shared with C20-R3)
+	r.Rule("C17-R6", "E6 provenance", 1, "context errors reach the retry policy as timeout / cancelled, never raw (shared with C20)")
+	c20ContextErrors(p, r, "C17-R6")
 	c17Options(p, r)
 }
 
@@ -116,10 +121,10 @@ func c17Options(p *core.Prog, r *core.Report) {
 	}
 	if f := mustFunc(p, r, "", "Channel", "RunWithRetry"); f != nil {
 		ok := false
-		for _, c := range core.CallsIn(f, "RetryOn.CanRetry") {
+		for _, c := range p.CallsDeep(f, 1, "RetryOn.CanRetry") {
 			recv := core.CallArgs(c)[0]
 			if fl := core.LoadedField(recv); fl != nil && fl.Name() == "RetryOn" {
-				if fa, isFA := recv.(*ssa.UnOp).X.(*ssa.FieldAddr); isFA && callResult(fa.X, "getRetryOptions") != nil {
+				if fa, isFA := recv.(*ssa.UnOp).X.(*ssa.FieldAddr); isFA && callResult(throughParam(fa.X, f), "getRetryOptions") != nil {
 					ok = true
 				}
 			}
@@ -274,16 +279,37 @@ func c17Loop(p *core.Prog, r *core.Report) {
 		r.Errorf("RunWithRetry: RetriableFunc parameter not found")
 		return
 	}
+	// an invocation is a direct call of the parameter, or a call of a helper
+	// that is handed the function and invokes it exactly once on every path,
+	// returning its result
 	var calls []*ssa.Call
+	callSet := map[ssa.Instruction]bool{}
 	core.EachInstr(f, func(i ssa.Instruction) {
-		if c, ok := i.(*ssa.Call); ok && c.Call.Value == fparam {
+		c, ok := i.(*ssa.Call)
+		if !ok {
+			return
+		}
+		if c.Call.Value == fparam {
 			calls = append(calls, c)
+			callSet[c] = true
+			return
+		}
+		g := c.Call.StaticCallee()
+		if g == nil || g.Blocks == nil || !p.InAnalysed(g) {
+			return
+		}
+		for k, a := range c.Call.Args {
+			if a == ssa.Value(fparam) && k < len(g.Params) {
+				if !invokesOnceAndReturns(g, g.Params[k]) {
+					r.Fail("C17-R2", fname(f), "helper "+g.Name()+" invokes the retriable function exactly once and returns its error", p.Pos(c.Pos()),
+						"the helper the attempt is delegated to can invoke the function zero times or more than once per call, or does not return its error: attempts are no longer counted by the loop")
+				}
+				calls = append(calls, c)
+				callSet[c] = true
+			}
 		}
 	})
-	isFCall := func(i ssa.Instruction) bool {
-		c, ok := i.(*ssa.Call)
-		return ok && c.Call.Value == fparam
-	}
+	isFCall := func(i ssa.Instruction) bool { return callSet[i] }
 	if len(calls) == 0 {
 		r.Errorf("RunWithRetry: no invocation of the retriable function")
 		return
@@ -447,7 +473,18 @@ func c17Loop(p *core.Prog, r *core.Report) {
 
 	// R3 stop conditions
 	isErrVal := func(v ssa.Value) bool { return errFromCalls(v, calls, map[ssa.Value]bool{}) }
-	isCanRetry := func(v ssa.Value) bool { return callResult(v, "RetryOn.CanRetry") != nil }
+	isCanRetry := func(v ssa.Value) bool {
+		if callResult(v, "RetryOn.CanRetry") != nil {
+			return true
+		}
+		// a helper whose boolean result is CanRetry's on every return
+		if c, ok := v.(*ssa.Call); ok {
+			if g := c.Call.StaticCallee(); g != nil && g.Blocks != nil && p.InAnalysed(g) && returnsCanRetry(g) {
+				return true
+			}
+		}
+		return false
+	}
 	nRet := 0
 	core.EachInstr(f, func(i ssa.Instruction) {
 		ret, ok := i.(*ssa.Return)
@@ -481,11 +518,124 @@ func c17Loop(p *core.Prog, r *core.Report) {
 		r.Check(okb, "C17-R3", fn, "next attempt only under err != nil && CanRetry(err)", p.Pos(pred.Instrs[0].Pos()), "back edge guarded", "loop continues without CanRetry(err)")
 	}
 	// CanRetry receives the invocation's error and the options' policy
-	for _, c := range core.CallsIn(f, "RetryOn.CanRetry") {
+	for _, c := range p.CallsDeep(f, 1, "RetryOn.CanRetry") {
 		args := core.CallArgs(c)
-		okc := len(args) == 2 && isErrVal(args[1]) && core.LoadedField(args[0]) != nil && core.LoadedField(args[0]).Name() == "RetryOn"
+		okc := len(args) == 2 && isErrVal(throughParam(args[1], f)) && core.LoadedField(args[0]) != nil && core.LoadedField(args[0]).Name() == "RetryOn"
 		r.Check(okc, "C17-R3", fn, "CanRetry(opts.RetryOn, err)", p.Pos(c.Pos()), "policy from the options, error from the invocation", "CanRetry not applied to the invocation error / options policy")
 	}
+}
+
+// throughParam: a parameter of a helper that `in` calls at exactly one site
+// stands for the argument passed there.
+func throughParam(v ssa.Value, in *ssa.Function) ssa.Value {
+	prm, ok := v.(*ssa.Parameter)
+	if !ok || prm.Parent() == in {
+		return v
+	}
+	g := prm.Parent()
+	idx := -1
+	for k, q := range g.Params {
+		if q == prm {
+			idx = k
+		}
+	}
+	var arg ssa.Value
+	n := 0
+	for _, h := range core.WithAnon(in) {
+		core.EachInstr(h, func(i ssa.Instruction) {
+			if c, isC := i.(ssa.CallInstruction); isC && c.Common().StaticCallee() == g && idx >= 0 && idx < len(c.Common().Args) {
+				arg = c.Common().Args[idx]
+				n++
+			}
+		})
+	}
+	if n == 1 {
+		return arg
+	}
+	return v
+}
+
+// invokesOnceAndReturns: g calls its function parameter q exactly once on
+// every path (never zero times, never twice), uses it for nothing else and
+// returns that call's error.
+func invokesOnceAndReturns(g *ssa.Function, q *ssa.Parameter) bool {
+	var qcalls []*ssa.Call
+	isQ := func(i ssa.Instruction) bool {
+		c, ok := i.(*ssa.Call)
+		return ok && c.Call.Value == ssa.Value(q)
+	}
+	for _, ref := range *q.Referrers() {
+		if _, isDbg := ref.(*ssa.DebugRef); isDbg {
+			continue
+		}
+		if !isQ(ref) {
+			return false
+		}
+		qcalls = append(qcalls, ref.(*ssa.Call))
+	}
+	if len(qcalls) == 0 || core.ReachAvoiding(g, nil, core.IsReturn, isQ, nil).Found {
+		return false
+	}
+	for _, c := range qcalls {
+		if core.ReachAvoiding(g, c, isQ, nil, nil).Found {
+			return false
+		}
+	}
+	ok := true
+	core.EachInstr(g, func(i ssa.Instruction) {
+		if ret, isRet := i.(*ssa.Return); isRet && !core.IsRecoverBlock(i.Block()) {
+			rv := core.ReturnValues(ret)
+			if len(rv) != 1 || !errFromCalls(rv[0], qcalls, map[ssa.Value]bool{}) {
+				ok = false
+			}
+		}
+	})
+	return ok
+}
+
+// returnsCanRetry: every return of g is CanRetry's result: the call's value
+// itself, or a boolean constant on the arm where CanRetry had that value.
+func returnsCanRetry(g *ssa.Function) bool {
+	isCR := func(v ssa.Value) bool { return callResult(v, "RetryOn.CanRetry") != nil }
+	n, ok := 0, true
+	core.EachInstr(g, func(i ssa.Instruction) {
+		ret, isRet := i.(*ssa.Return)
+		if !isRet || core.IsRecoverBlock(i.Block()) {
+			return
+		}
+		rv := core.ReturnValues(ret)
+		if len(rv) != 1 {
+			ok = false
+			return
+		}
+		n++
+		var okv func(v ssa.Value, fs facts, d int) bool
+		okv = func(v ssa.Value, fs facts, d int) bool {
+			if d > 4 {
+				return false
+			}
+			if isCR(v) {
+				return true
+			}
+			if b, isC := core.ConstBool(v); isC {
+				return fs.hasBool(isCR, b)
+			}
+			if ph, isPhi := v.(*ssa.Phi); isPhi {
+				for k, e := range ph.Edges {
+					pred := ph.Block().Preds[k]
+					if !okv(e, factsAt(pred).add(edgeFacts(pred, ph.Block())), d+1) {
+						return false
+					}
+				}
+				return true
+			}
+			return false
+		}
+		if !okv(rv[0], factsAt(ret.Block()), 0) {
+			ok = false
+		}
+	})
+	return ok && n > 0
 }
 
 // errFromCalls: v is the result of one of the calls, or a phi of such results (and nil).
